@@ -592,3 +592,92 @@ func reachingStores(at ssa.Instruction, al *ssa.Alloc, field int) (stores []*ssa
 	zero = reaches(ab, indexOfInstr(ab, al)+1)
 	return stores, zero
 }
+
+// ---------- full-range loops ----------
+
+// fullRangeIndex reports whether idx enumerates every index 0..len(slice)-1 of the loop it is used in:
+// either the go/ssa shape of `for i := range s` (idx = phi(-1, idx) + 1 tested `idx < len(s)`) or the classic
+// `for i := 0; i < len(s); i++` (idx = phi(0, idx+1) tested `idx < len(s)`). lenOK decides whether the bound
+// is the length of the wanted slice.
+func fullRangeIndex(idx ssa.Value, lenOK func(bound ssa.Value) bool) bool {
+	isLenBound := func(v ssa.Value) bool { return lenOK(v) }
+	testedAgainstLen := func(v ssa.Value) bool {
+		for _, r := range *v.Referrers() {
+			bo, ok := r.(*ssa.BinOp)
+			if !ok || bo.Op != token.LSS || bo.X != v || !isLenBound(bo.Y) {
+				continue
+			}
+			for _, r2 := range *bo.Referrers() {
+				if _, ok := r2.(*ssa.If); ok {
+					return true
+				}
+			}
+		}
+		return false
+	}
+	// range shape
+	if add, ok := idx.(*ssa.BinOp); ok && add.Op == token.ADD {
+		if one, ok := constInt(add.Y); ok && one == 1 {
+			if phi, ok := add.X.(*ssa.Phi); ok && len(phi.Edges) == 2 {
+				initOK, stepOK := false, false
+				for _, e := range phi.Edges {
+					if k, ok := constInt(e); ok && k == -1 {
+						initOK = true
+					}
+					if e == ssa.Value(add) {
+						stepOK = true
+					}
+				}
+				if initOK && stepOK && testedAgainstLen(add) {
+					return true
+				}
+			}
+		}
+	}
+	// classic shape
+	if phi, ok := idx.(*ssa.Phi); ok && len(phi.Edges) == 2 {
+		initOK, stepOK := false, false
+		for _, e := range phi.Edges {
+			if k, ok := constInt(e); ok && k == 0 {
+				initOK = true
+			}
+			if add, ok := e.(*ssa.BinOp); ok && add.Op == token.ADD && add.X == ssa.Value(phi) {
+				if one, ok := constInt(add.Y); ok && one == 1 {
+					stepOK = true
+				}
+			}
+		}
+		if initOK && stepOK && testedAgainstLen(phi) {
+			return true
+		}
+	}
+	return false
+}
+
+// isLenOf: v is len(x) for an x accepted by pred (len is computed once before a range loop, or per test).
+func isLenOf(v ssa.Value, pred func(x ssa.Value) bool) bool {
+	c, ok := v.(*ssa.Call)
+	if !ok {
+		return false
+	}
+	b, ok := c.Call.Value.(*ssa.Builtin)
+	return ok && b.Name() == "len" && len(c.Call.Args) == 1 && pred(c.Call.Args[0])
+}
+
+// alwaysExecutedWith: call c runs whenever instruction s runs and the function then returns normally:
+// c dominates s, or s dominates c and every return reachable from s is dominated by c.
+func alwaysExecutedWith(c, s ssa.Instruction) bool {
+	if instrDominates(c, s) {
+		return true
+	}
+	if !instrDominates(s, c) {
+		return false
+	}
+	ok := true
+	allInstrs(s.Parent(), func(ins ssa.Instruction) {
+		if ret, isRet := ins.(*ssa.Return); isRet && instrReachableFrom(s, ret) && !instrDominates(c, ret) {
+			ok = false
+		}
+	})
+	return ok
+}
